@@ -390,6 +390,34 @@ Proof.
   split; [vm_compute; reflexivity|]. vm_compute. reflexivity.
 Qed.
 
+(* ---- several Buffers in one process (seeded change C01_4) --------------------------------------------------
+   The models are per object; a process with several Buffers (every connection has two, on several io threads) is the
+   PRODUCT of their models if the objects share no state.  That is the obligation read off the clang AST of the
+   current sources: the spill area `extrabuf` of Buffer::readFd is an automatic local (not static / thread_local /
+   extern), class Buffer has no static data member other than the static const constants, no member function has a
+   static local or refers to a non-const variable outside its object.  (Also exercised: the forced two-thread readFd
+   case of the differential run, RF2.) *)
+Theorem C10_buffers_share_no_state_generated :
+  readFd_extrabuf_is_automatic = true /\ Buffer_shares_no_state = true.
+Proof. exact C10_buffers_share_no_state. Qed.
+Print Assumptions C10_buffers_share_no_state_generated.
+
+(* the product theorem the obligation justifies: for ANY interleaving of the operations on two Buffer systems
+   ([bsys] = a buffer pair with the outputs it produced, [bstep] = step_c, a refused op leaves it alone), each one
+   is its own model run on its own operations in their order, whatever was done to the other *)
+Theorem C10_buffers_independent : forall (ops : list (op + op)) (s : bsys * bsys),
+  pair_run _ _ _ _ bstep bstep s ops = (brun (fst s) (lefts _ _ ops), brun (snd s) (rights _ _ ops)).
+Proof. exact buffers_independent. Qed.
+Print Assumptions C10_buffers_independent.
+
+(* two buffers whose reads both spill, interleaved: each ends with exactly the bytes of its own descriptor *)
+Example ex_two_spills :
+  let a := repeat x41 30 in let b := repeat x42 40 in
+  let s := pair_run _ _ _ _ bstep bstep (((new_buf 8, new_buf 0), []), ((new_buf 16, new_buf 0), []))
+             [inl (ReadFd (KData a)); inr (ReadFd (KData b)); inl ToStringPiece; inr ToStringPiece] in
+  readable (fst (fst (fst s))) = a /\ readable (fst (fst (snd s))) = b.
+Proof. vm_compute. split; reflexivity. Qed.
+
 (* ---- the int casts of toStringPiece() / shrink() (review B-3) -----------------------------
    Buffer.h:174 static_cast<int>(readableBytes()), Buffer.h:179/367 int StringPiece::size().
    [step] (all theorems above) ignores them; [step_c] models them (length wrapped to a signed
